@@ -96,7 +96,17 @@ def gen_multi_buffer(rng, mods):
         b.add('    return zz')
         b.add('local(local(1))', [('get_references', 'loca', None), ('get_references', 'loca', {'scope': 'file'})])
 
-    parts = [cond_call, ternary_inst, multi_def, multi_inherit, or_union, star_overlap, alt, flow, refs]
+    def arith():
+        b.add('def calc(a, b):')
+        b.add('    total = a + b')
+        b.add('    return total * 2')
+        b.add('')
+        b.add('amount = calc(1, 2)')
+        b.add('amount.real', [('infer', 'amoun', None), ('help', 'amoun', None), ('complete', 'amount.', None)])
+        b.add('mixed = calc(1, 2) or 7')
+        b.add('mixed', [('infer', 'mixe', None), ('goto', 'mixe', None)])
+
+    parts = [cond_call, ternary_inst, multi_def, multi_inherit, or_union, star_overlap, alt, flow, refs, arith, arith]
     rng.shuffle(parts)
     for p in parts[:rng.randint(3, 5)]:
         p()
@@ -111,12 +121,43 @@ def gen_multi_buffer(rng, mods):
     return b.text, probes
 
 
+def gen_many_calls_buffer(rng, mods):
+    """the same project function executed from many distinct call sites: per-query
+    budgets (recursion / execution counters) must not leak from query to query"""
+    b = world.Buffer()
+    tops = [m for m in mods if '.' not in m]
+    a = rng.choice(tops)
+    b.add('import %s' % a)
+    b.add('')
+    b.add('def mk(v, w=None):')
+    b.add('    return v')
+    b.add('')
+    b.add('class Box:')
+    b.add('    def get(self, z):')
+    b.add('        return mk(z)')
+    b.add('')
+    n = 8
+    for j in range(n):
+        form = rng.choice(['q%d = mk(%s.Klass())', 'q%d = mk(Box())', 'q%d = Box().get(%s.func(1))', 'q%d = mk(mk(1.5))'])
+        line = form % ((j, a) if '%s' in form else (j,))
+        kind = rng.choice(['infer', 'infer', 'complete', 'goto'])
+        if kind == 'complete':
+            b.add(line)
+            b.add('q%d.x' % j, [('complete', 'q%d.' % j, None)])
+        else:
+            b.add(line, [(kind, 'q%d' % j, None)])
+    return b.text, list(b.probes)
+
+
 def gen_case(seed, tier, i):
     rng = driver.rng_for(seed, 'C16', tier, 'case', i)
     w = world.gen_world(rng, n_top=rng.randint(2, 3), with_pkg=rng.random() < 0.3, with_ns=False)
     # make ALT / multi shapes more likely
     init = [{'op': 'fs', 'kind': 'write', 'path': p, 'content': c, 'mt': MT0} for p, c in sorted(w.files.items())]
-    if rng.random() < 0.75:
+    family = rng.random()
+    if family < 0.2:
+        text, probes = gen_many_calls_buffer(rng, list(w.mods))
+    elif family < 0.8:
         text, probes = gen_multi_buffer(rng, list(w.mods))
     else:
         b = world.gen_probe_buffer(rng, list(w.mods), max_probes=7)
@@ -131,12 +172,16 @@ def gen_case(seed, tier, i):
             'perturb': None if rng.random() < 0.3 else {'n': rng.choice([50, 300, 1000, 5000]), 'seed': rng.randint(1, 10**6)},
             'gc_auto': rng.random() < 0.4,
             'gc_each': rng.random() < 0.3,
+            # the absolute path of the project is part of what a process sees: vary its length
+            'pad': 'p' * rng.choice([0, 0, 1, 2, 3, 5, 8, 13]),
         })
     # schedule: permutation with repetitions, <= 8 distinct probes
     idxs = list(range(len(probes)))
     rng.shuffle(idxs)
     chosen = idxs[:min(8, len(idxs))]
     sched = []
+    if family < 0.2:
+        sched = list(chosen)        # every call site once, then repetitions
     for _ in range(rng.randint(8, 16 if tier == 'quick' else 24)):
         sched.append(rng.choice(chosen))
     nf = rng.randint(1, 3)
@@ -181,6 +226,7 @@ def sched_ops(case, cfg):
 
 
 def run_ops(case, ops, cfg, faults=None):
+    driver.set_pad(cfg.get('pad', ''))
     root = driver.new_root('c16')
     try:
         spec = {'init': case['init'], 'ops': ops, 'faults': faults or [], 'gc_auto': cfg.get('gc_auto', False)}
@@ -224,6 +270,7 @@ class C16(base.Engine):
     }
 
     def execute(self, case):
+        driver.begin_case(case)
         probes = case['probes']
         stats = {'runs': 0, 'order_sensitive_probes': 0, 'compared': 0, 'faults_fired': 0, 'swallowed': 0,
                  'inconclusive': 0, 'multi_valued_probes': 0, 'failing_probes': 0}
@@ -253,7 +300,10 @@ class C16(base.Engine):
             if norm(probes[idx], res) != norm(probes[idx], b):
                 same_multiset = (not is_exc(res) and not is_exc(b)
                                  and sorted(map(repr, res)) == sorted(map(repr, b)))
-                sig = '%s:%s:%s' % (kind, probes[idx]['m'], 'order' if same_multiset else 'content')
+                what = 'order' if same_multiset else 'content'
+                if what == 'content' and _builtin_representative_differs(probes[idx], res, b):
+                    what = 'representative_of_builtin_instance'
+                sig = '%s:%s:%s' % (kind, probes[idx]['m'], what)
                 d = {'probe': probes[idx], 'op': j, 'cfg': cfg, 'got': _short(res), 'base': _short(b)}
                 if extra:
                     d.update(extra)
@@ -321,8 +371,10 @@ class C16(base.Engine):
         stats['digest'] = driver.events_digest([{'d': digests}])
         stats['distinct_process_outputs'] = len(set(digests))
         if problems:
+            problems.sort(key=lambda p: p[0].endswith('representative_of_builtin_instance'))
             return {'verdict': 'violation', 'sig': problems[0][0],
-                    'detail': {'problems': [[s, d] for s, d in problems[:4]], 'n': len(problems)}, 'stats': stats}
+                    'detail': {'problems': [[s, d] for s, d in problems[:4]], 'n': len(problems),
+                               'all_sigs': sorted({s for s, _ in problems})}, 'stats': stats}
         return {'verdict': 'ok', 'stats': stats}
 
     def run(self, tier, seed, budget_s):
@@ -369,8 +421,8 @@ class C16(base.Engine):
             pref = k.get('match', {}).get('sig_regex')
             if pref:
                 import re
-                if probs and all(re.fullmatch(pref, p[0]) for p in probs) and \
-                        (result.get('detail') or {}).get('n', 0) <= len(probs) + 50:
+                sigs = (result.get('detail') or {}).get('all_sigs') or [p[0] for p in probs]
+                if sigs and all(re.fullmatch(pref, x) for x in sigs):
                     return k
         return None
 
@@ -408,6 +460,41 @@ class C16(base.Engine):
             'injected_exceptions_swallowed_by_jedi': tot['swallowed'],
             'inconclusive_comparisons': tot['inconclusive'],
         }
+
+
+def _builtin_representative_differs(probe, a, b):
+    """listed finding C16-builtin-instance-representative: the value set holds two
+    representations of one builtin instance (a compiled object produced by an
+    operation, and an ExactValue standing for a literal); the API removes
+    duplicates that are equal "in an API sense" and keeps whichever the set
+    iteration yields first.  Recognised narrowly:
+      Names (infer/goto/help): same entries in everything but docstring hash,
+        and every differing entry is a builtin instance without a module path;
+      completions: same (name, complete) lists, differing entries differ only in
+        type and are dunder or builtin-number attribute names of an instance."""
+    try:
+        if is_exc(a) or is_exc(b) or len(a) != len(b):
+            return False
+        if probe['m'] in ('infer', 'goto', 'help'):
+            if not all(len(x) == 8 for x in a + b):
+                return False
+            sa, sb = sorted(a, key=lambda x: x[:7]), sorted(b, key=lambda x: x[:7])
+            for x, y in zip(sa, sb):
+                if x[:7] != y[:7]:
+                    return False
+                if x[7] != y[7] and not (x[2] is None and x[1] == 'instance' and str(x[5]).startswith('builtins.')):
+                    return False
+            return True
+        if probe['m'] == 'complete':
+            for x, y in zip(a, b):
+                if x[:2] != y[:2]:
+                    return False
+                if x[2] != y[2] and not ({x[2], y[2]} <= {'instance', 'function', 'property'}):
+                    return False
+            return True
+        return False
+    except Exception:
+        return False
 
 
 def _short(r):
